@@ -159,6 +159,12 @@ def run_shard(shard, acc, forced_trace=None):
             extra = hist.goldens(pool[::3], hashseeds=("random",), threads=2)
             for k, v in extra.items():
                 gold[k].update(v)
+        special = [j for j in pool if j.get("hashseeds")]
+        # (each "random#k" key is a separate fresh process with its own random hash seed)
+        clones = [dict(j, id=f"{j['id']}#{k}") for j in special for k in range(j["hashseeds"])]
+        for cid, v in hist.goldens(clones, hashseeds=("random",), threads=4).items():
+            jid, k = cid.split("#")
+            gold[int(jid)][f"random#{k}"] = v["random"]
         for j in pool:
             rs = gold[j["id"]]
             acc.count("fresh_processes", len(rs))
